@@ -86,7 +86,8 @@ def run(mod, tier, seed):
             mlines = [sx.enc([t, 1 if s_ else 0, [sp] if sp else [], 0, r.ftab if r.ftab is not None else []])
                       for (t, s_, sp, cyc), r in zip(tuples, res)]
             rout = fw.run_sharded([rt_exe], mlines)
-            tot = {'documents': 0, 'blocks': 0, 'conforming_blocks': 0, 'lexical_mismatches': 0, 'statement_mismatches': 0}
+            tot = {'documents': 0, 'blocks': 0, 'conforming_blocks': 0, 'lexical_mismatches': 0, 'statement_mismatches': 0,
+                   'elements': 0, 'elements_meeting_the_condition_of_the_load_write_theorem': 0}
             for i, line in enumerate(rout):
                 if not line or line.startswith('DIED'):
                     continue
@@ -97,6 +98,9 @@ def run(mod, tier, seed):
                     tot['conforming_blocks'] += a[2]
                     tot['lexical_mismatches'] += a[3]
                     tot['statement_mismatches'] += a[4]
+                    if len(a) > 8:
+                        tot['elements'] += a[7]
+                        tot['elements_meeting_the_condition_of_the_load_write_theorem'] += a[8]
                     if a[3] or a[4]:
                         rt_bad.append((i, 'lexical %d, statement %d, first in %s' % (a[3], a[4], [x.decode() for x in a[5]])))
             rt_info = tot
